@@ -75,7 +75,7 @@ def gdb_signature(b, tool, path, args, cwd, timeout=60):
     return f"{sig.group(1) if sig else 'SIG?'}@{'<'.join(frames) if frames else '?'}"
 
 
-def run_tool(b, tool, data, workroot, timeout=20, args=(), keep=False, want_sig=True, scan_output=True):
+def run_tool(b, tool, data, workroot, timeout=20, args=(), keep=False, want_sig=True, scan_output=True, env_extra=None):
     """run one tool on `data` (bytes) in a fresh directory; returns a dict"""
     d = tempfile.mkdtemp(prefix="r-", dir=workroot)
     path = os.path.join(d, "in.exp")
@@ -90,6 +90,8 @@ def run_tool(b, tool, data, workroot, timeout=20, args=(), keep=False, want_sig=
             fh.write(data)
     t0 = time.time()
     env = tool_env(b)
+    if env_extra:
+        env.update(env_extra)
     try:
         p = subprocess.Popen([b.tool(tool)] + list(args) + [path], cwd=out_d, env=env, stdin=subprocess.DEVNULL,
                              stdout=subprocess.PIPE, stderr=subprocess.PIPE, start_new_session=True)
